@@ -80,7 +80,7 @@ type HelloOpts struct {
 var safeUnknownExts = []uint16{0x0040, 0x0041, 0xfd00, 0xfd7a, 0x0045, 0x00c7, 0x3377, 0x2b2b, 0x0f0f, 0xabcd}
 
 // extension types crypto/tls ignores but utls parses strictly (D8)
-var UtlsStrictExts = []uint16{0x0011, 0x0018, 0x001b, 0x001c, 0x0022, 0x4469, 0x7550}
+var UtlsStrictExts = []uint16{0x0011, 0x0018, 0x001b, 0x001c, 0x0022, 0x4469, 0x7550, 0x754f} // 0x754f: the old code point of channel_id, which utls parses into the same type as 0x7550
 var unknownCiphers = []uint16{0x00ff, 0xc0ff, 0x1304, 0x1305, 0x00a8, 0xd001}
 var unknownGroups = []uint16{0x0100, 0x0101, 0x0019, 0x001e, 0x6399, 0x4138}
 var unknownSigAlgs = []uint16{0x0203, 0x0807, 0x0808, 0x081a, 0x0201, 0x0904}
